@@ -2540,6 +2540,7 @@ int errBoundMode, double absErr_Bound, double relBoundRatio, double pwRelBoundRa
 {
 	confparams_cpr->dataType = SZ_DOUBLE;
 	confparams_cpr->errorBoundMode = errBoundMode;
+	confparams_cpr->relBoundRatio = relBoundRatio; //serialized into the parameter block in the range-relative modes
 	if(errBoundMode==PW_REL)
 	{
 		confparams_cpr->pw_relBoundRatio = pwRelBoundRatio;
